@@ -69,6 +69,58 @@ Definition header_bytes (k : ckind) (tid sz : N) : bytes :=
 Definition header_size (k : ckind) : N :=
   match k with KMsg => 0 | KTV => 1 | KTLV => 4 end.
 
+Section Subs.
+  (* [e] encodes one parameter value: (bytes incl. header, declared size) *)
+  Variable e : value -> option (bytes * N).
+
+  Definition is_param (tid : N) (v : value) : bool :=
+    match v with VStruct false tid' _ _ => tid' =? tid | _ => false end.
+
+  Fixpoint enc_many (tid : N) (l : list value) : option (bytes * N) :=
+    match l with
+    | [] => Some ([], 0)
+    | x :: l' =>
+      if is_param tid x then
+        match e x, enc_many tid l' with
+        | Some (b, z), Some (r, sz) => Some (b ++ r, z + sz)
+        | _, _ => None end
+      else None
+    end.
+
+  (* the sub-parameters in table order: repeatable ones all, optional ones when present,
+     of mutually exclusive alternatives the first non-zero one ([chosen] = group already served) *)
+  Fixpoint enc_subs (subs : list sub) (vs : list value) (chosen : N) {struct vs} : option (bytes * N) :=
+    match vs, subs with
+    | [], [] => Some ([], 0)
+    | v' :: vs', s :: subs' =>
+      match s_arity s, v' with
+      | One, VStruct _ _ _ _ =>
+        if negb (is_param (s_tid s) v') then None
+        else if s_group s =? 0 then
+          match e v', enc_subs subs' vs' chosen with
+          | Some (b, z), Some (r, sz) => Some (b ++ r, z + sz)
+          | _, _ => None end
+        else if (chosen =? s_group s) || negb (alt_nonzero v') then enc_subs subs' vs' chosen
+        else
+          match e v', enc_subs subs' vs' (s_group s) with
+          | Some (b, z), Some (r, sz) => Some (b ++ r, z + sz)
+          | _, _ => None end
+      | Opt, VOpt None => enc_subs subs' vs' chosen
+      | Opt, VOpt (Some x) =>
+        if negb (is_param (s_tid s) x) then None
+        else match e x, enc_subs subs' vs' chosen with
+             | Some (b, z), Some (r, sz) => Some (b ++ r, z + sz)
+             | _, _ => None end
+      | Many, VList l =>
+        match enc_many (s_tid s) l, enc_subs subs' vs' chosen with
+        | Some (b, z), Some (r, sz) => Some (b ++ r, z + sz)
+        | _, _ => None end
+      | _, _ => None
+      end
+    | _, _ => None
+    end.
+End Subs.
+
 (* enc v = Some (bytes, declared size).  For a parameter the bytes include its TLV/TV header and
    the declared size is what getHeader puts in [sz] before uint16 truncation; for a message the
    bytes are the payload. *)
@@ -81,49 +133,7 @@ Fixpoint enc (t : table) (v : value) {struct v} : option (bytes * N) :=
       match enc_fields (c_fields c) fs 0 with
       | None => None
       | Some (fb, fsz) =>
-        let enc_subs :=
-          (fix go (subs : list sub) (vs : list value) (chosen : N) {struct vs} : option (bytes * N) :=
-             match subs, vs with
-             | [], [] => Some ([], 0)
-             | s :: subs', v' :: vs' =>
-               match s_arity s, v' with
-               | One, VStruct false tid' _ _ =>
-                 if negb (tid' =? s_tid s) then None
-                 else if s_group s =? 0 then
-                   match enc t v', go subs' vs' chosen with
-                   | Some (b, z), Some (r, sz) => Some (b ++ r, z + sz)
-                   | _, _ => None end
-                 else if (chosen =? s_group s) || negb (alt_nonzero v') then go subs' vs' chosen
-                 else
-                   match enc t v', go subs' vs' (s_group s) with
-                   | Some (b, z), Some (r, sz) => Some (b ++ r, z + sz)
-                   | _, _ => None end
-               | Opt, VOpt None => go subs' vs' chosen
-               | Opt, VOpt (Some ((VStruct false tid' _ _) as x)) =>
-                 if negb (tid' =? s_tid s) then None
-                 else match enc t x, go subs' vs' chosen with
-                      | Some (b, z), Some (r, sz) => Some (b ++ r, z + sz)
-                      | _, _ => None end
-               | Many, VList l =>
-                 let many :=
-                   (fix many (l : list value) : option (bytes * N) :=
-                      match l with
-                      | [] => Some ([], 0)
-                      | ((VStruct false tid' _ _) as x) :: l' =>
-                        if negb (tid' =? s_tid s) then None
-                        else match enc t x, many l' with
-                             | Some (b, z), Some (r, sz) => Some (b ++ r, z + sz)
-                             | _, _ => None end
-                      | _ :: _ => None
-                      end) in
-                 match many l, go subs' vs' chosen with
-                 | Some (b, z), Some (r, sz) => Some (b ++ r, z + sz)
-                 | _, _ => None end
-               | _, _ => None
-               end
-             | _, _ => None
-             end) in
-        match enc_subs (c_subs c) ss 0 with
+        match enc_subs (enc t) (c_subs c) ss 0 with
         | None => None
         | Some (sb, ssz) =>
           let sz := header_size (c_kind c) + fsz + ssz in
